@@ -235,12 +235,13 @@ def const_value(x):
 
 
 class SReal:
-    __slots__ = ('n', 'd')
+    __slots__ = ('n', 'd', 'nn')
     __array_priority__ = 2000
 
-    def __init__(self, n, d=None):
+    def __init__(self, n, d=None, nn=False):
         self.n = n
         self.d = d if d is not None else ONE
+        self.nn = nn          # known non-negative by construction (a square, or a sum of such)
 
     @staticmethod
     def lift(x):
@@ -286,8 +287,12 @@ class SReal:
         except TypeError:
             return NotImplemented
         if a.d == b.d:
-            return SReal(a.n + b.n, a.d).simp()
-        return SReal(a.n * b.d + b.n * a.d, a.d * b.d).simp()
+            r = SReal(a.n + b.n, a.d).simp()
+        else:
+            r = SReal(a.n * b.d + b.n * a.d, a.d * b.d).simp()
+        if (a.nn or (a.is_const() and a.const() >= 0)) and (b.nn or (b.is_const() and b.const() >= 0)):
+            r.nn = True
+        return r
     __radd__ = __add__
 
     def __neg__(a):
@@ -319,7 +324,10 @@ class SReal:
             b = SReal.lift(b)
         except TypeError:
             return NotImplemented
-        return SReal(a.n * b.n, a.d * b.d).simp()
+        r = SReal(a.n * b.n, a.d * b.d).simp()
+        if a is b or (a.n == b.n and a.d == b.d) or (a.nn and b.nn):
+            r.nn = True
+        return r
     __rmul__ = __mul__
 
     def __truediv__(a, b):
@@ -357,7 +365,10 @@ class SReal:
             k = int(k)
         if isinstance(k, int):
             if k >= 0:
-                return SReal(a.n ** k, a.d ** k).simp()
+                r = SReal(a.n ** k, a.d ** k).simp()
+                if k % 2 == 0 or a.nn:
+                    r.nn = True
+                return r
             return SReal.lift(1) / (a ** (-k))
         if k in (0.5, Fr(1, 2)):
             return sqrt(a)
@@ -385,7 +396,7 @@ class SReal:
             d = ONE
         else:
             n, d = _cancel(n, d)
-        return SReal(n, d)
+        return SReal(n, d, self.nn)
 
     def __abs__(a):
         return sabs(a)
@@ -504,8 +515,14 @@ class SBool:
             return {'<': cv < 0, '<=': cv <= 0, '>': cv > 0, '>=': cv >= 0, '==': False, '!=': True}[op]
         # sign knowledge: products of atoms with known sign
         sg = _known_sign(diff)
-        if sg is None:
-            sg = _interval_sign(diff)
+        if sg not in ('pos', 'neg'):
+            sg2 = _interval_sign(diff)
+            if sg2 in ('pos', 'neg') or sg is None:
+                sg = sg2
+        if sg == 'nonzero':
+            if op in ('==', '!='):
+                return op == '!='
+            sg = None
         if sg is not None:
             if sg == 'pos':
                 return {'<': False, '<=': False, '>': True, '>=': True, '==': False, '!=': True}[op]
@@ -751,7 +768,7 @@ def _ipow(a, e):
     return (None if lo is None else lo ** e, None if hi is None else hi ** e)
 
 
-def poly_interval(p):
+def poly_interval(p, depth=0):
     """sound enclosure of polynomial p given the recorded bounds of its atoms"""
     c = CTX
     lo, hi = Fr(0), Fr(0)
@@ -772,7 +789,19 @@ def poly_interval(p):
         lo = None if (lo is None or l is None) else lo + l
         hi = None if (hi is None or h is None) else hi + h
         if lo is None and hi is None:
-            return (None, None)
+            break
+    # p = Q + rest with Q a registered polynomial (Q >= c): bound the rest separately
+    if depth < 2 and (lo is None or lo < 0) and len(p.t) > 1:
+        for Q, ql in list(c.poly_lower.items()):
+            if len(Q.t) >= 2 and len(Q.t) <= len(p.t):
+                m0 = next(iter(Q.t))
+                if m0 in p.t and p.t[m0] * Q.t[m0] > 0:
+                    k = p.t[m0] / Q.t[m0]
+                    rest = p - Q.scale(k)
+                    if len(rest.t) < len(p.t):
+                        rl, _rh = poly_interval(rest, depth + 1)
+                        if rl is not None and (lo is None or rl + k * ql > lo):
+                            lo = rl + k * ql
     # assumptions about a whole polynomial (P >= c recorded by assume)
     q, c0 = _split_const(p)
     pl = c.poly_lower.get(q)
@@ -793,7 +822,52 @@ def _split_const(p):
     return p, Fr(0)
 
 
-def _interval_sign(x):
+_FACT = {}
+
+
+def _factor_sign(p):
+    """strict sign of polynomial p from the signs of its irreducible factors (None if unknown)"""
+    if len(p.t) > 150 or len(p.t) < 2:
+        return None
+    key = (p, len(CTX.rules.rules))
+    if key not in _FACT:
+        try:
+            c, fl = _sp.factor_list(_poly_to_sympy(p))
+            _FACT[key] = (Fr(int(c.p), int(c.q)), [(_sympy_to_poly(f), k) for f, k in fl])
+        except Exception:
+            _FACT[key] = None
+    fac = _FACT[key]
+    if not fac or len(fac[1]) < 2 and (not fac[1] or fac[1][0][1] == 1):
+        return None
+    sgn = 1 if fac[0] > 0 else -1
+    nonzero_only = False
+    for f, k in fac[1]:
+        fx = SReal(normal(f))
+        sg = _known_sign(fx)
+        if sg not in ('pos', 'neg'):
+            sg = _interval_sign(fx, factor=False)
+        if sg == 'pos':
+            continue
+        if sg == 'neg':
+            if k % 2:
+                sgn = -sgn
+            continue
+        if k % 2 == 0 or len(f.t) > 40:
+            if k % 2 == 0 and len(f.t) <= 40 and (poly_interval(normal(f * f))[0] or 0) > 0:
+                continue
+            return None if k % 2 else None
+        # sign unknown: the factor may still be known to be non-zero through a bound on its square
+        sq = poly_interval(normal(f * f))[0]
+        if sq is not None and sq > 0:
+            nonzero_only = True
+            continue
+        return None
+    if nonzero_only:
+        return 'nonzero'
+    return 'pos' if sgn > 0 else 'neg'
+
+
+def _interval_sign(x, factor=True):
     """'pos'/'neg'/'nonneg'/'nonpos' from interval arithmetic on numerator (denominator constant or of known sign)"""
     c = CTX
     if c is None or not c.bounds and not c.poly_lower and not c.poly_upper:
@@ -806,12 +880,24 @@ def _interval_sign(x):
         elif sgd == 'neg': ds = -1
         else: return None
     if len(x.n.t) > 400:
-        return None
-    lo, hi = poly_interval(x.n)
+        # too large for monomial-wise intervals: only the recorded whole-polynomial bounds
+        q, c0 = _split_const(x.n)
+        lo = c.poly_lower.get(q)
+        hi = c.poly_upper.get(q)
+        lo = None if lo is None else lo + c0
+        hi = None if hi is None else hi + c0
+    else:
+        lo, hi = poly_interval(x.n)
     if ds < 0:
         lo, hi = (None if hi is None else -hi), (None if lo is None else -lo)
     if lo is not None and lo > 0: return 'pos'
     if hi is not None and hi < 0: return 'neg'
+    if factor:
+        fs = _factor_sign(x.n)
+        if fs == 'nonzero':
+            return 'nonzero'
+        if fs is not None:
+            return fs if ds > 0 else ('neg' if fs == 'pos' else 'pos')
     if lo is not None and lo >= 0: return 'nonneg'
     if hi is not None and hi <= 0: return 'nonpos'
     return None
@@ -921,8 +1007,10 @@ def _record_bound(b):
     # normalise the leading coefficient to +1 / -1 scale so that k*P >= c is recorded for P
     if b.a in ('>=', '>'):
         CTX.poly_lower[q] = max(CTX.poly_lower.get(q, -c0), -c0)      # q + c0 >= 0
+        CTX.poly_upper[-q] = min(CTX.poly_upper.get(-q, c0), c0)
     else:
         CTX.poly_upper[q] = min(CTX.poly_upper.get(q, -c0), -c0)
+        CTX.poly_lower[-q] = max(CTX.poly_lower.get(-q, c0), c0)
     if q.is_monomial() and c0 == 0:
         # k * x * y >= 0 (or <= 0) with x of known strict sign  =>  sign of y
         (m, k), = q.t.items()
@@ -985,6 +1073,13 @@ def sabs(a):
         return a
     if sg in ('neg', 'nonpos'):
         return -a
+    # |monomial * rest| = |monomial| * |rest| : pull atoms of known sign out of the absolute value
+    if a.d.is_const() and not a.n.is_monomial():
+        g = a.n.content_monomial()
+        gk = tuple((v, e) for v, e in g if CTX.sign.get(v) in ('pos', 'nonneg') or e % 2 == 0)
+        if gk:
+            outer = SReal(Poly({gk: Fr(1)}))
+            return outer * sabs(SReal(a.n.div_monomial(gk), a.d))
     key = ('abs', a.n, a.d)
     nkey = ('abs', -a.n, a.d)
     if nkey in CTX.atoms:
@@ -996,9 +1091,18 @@ def sabs(a):
         CTX.defs[nm] = ('abs', a)
         CTX.sign[nm] = 'nonneg'
         if a.d.is_const():
-            lo_, hi_ = poly_interval(a.n.scale(1 / a.d.const_val()))
+            pa = a.n.scale(1 / a.d.const_val())
+            lo_, hi_ = poly_interval(pa)
+            blo, bhi = Fr(0), None
             if lo_ is not None and hi_ is not None:
-                CTX.bounds[nm] = (Fr(0) if lo_ <= 0 <= hi_ else min(abs(lo_), abs(hi_)), max(abs(lo_), abs(hi_)))
+                blo, bhi = (Fr(0) if lo_ <= 0 <= hi_ else min(abs(lo_), abs(hi_))), max(abs(lo_), abs(hi_))
+            # a recorded bound on the square (x^2 >= c) bounds |x| from below
+            sq_lo = poly_interval(normal(pa * pa))[0] if len(pa.t) <= 40 else None
+            if sq_lo is not None and sq_lo > 0:
+                blo = max(blo, _fsqrt_lo(sq_lo))
+            CTX.bounds[nm] = (blo, bhi)
+            if blo > 0:
+                CTX.sign[nm] = 'pos'
         zm = CTX.zv(nm)
         if a.d.is_const():
             za = a.z3()
@@ -1013,6 +1117,20 @@ def sabs(a):
 
 
 # ---- sqrt ----------------------------------------------------------------------------------
+def note_nonneg(x, lower=0):
+    """record  P >= lower  for the polynomial numerator of x (x has a positive constant denominator)"""
+    x = x.simp()
+    if not x.d.is_const() or x.d.const_val() <= 0:
+        return
+    p = x.n.scale(1 / x.d.const_val())
+    q, c0 = _split_const(p)
+    if q.is_zero():
+        return
+    lo = Fr(lower) - c0
+    CTX.poly_lower[q] = max(CTX.poly_lower.get(q, lo), lo)
+    CTX.poly_upper[-q] = min(CTX.poly_upper.get(-q, -lo), -lo)
+
+
 def _sqrt_basic(x):
     if x.is_const():
         v = x.const()
@@ -1148,6 +1266,10 @@ def sqrt(x):
         return _math.sqrt(x)
     if x.is_const():
         return _sqrt_basic(x)
+    if x.nn:
+        # a sum of squares by construction: register the fact so that neither a domain obligation nor a
+        # solver call is needed for  radicand >= 0
+        note_nonneg(x)
     x = x.simp()
     if x.is_const():
         return _sqrt_basic(x)
@@ -1167,8 +1289,19 @@ def sqrt(x):
         root = _sqrt_basic(SReal(normal(rad.n * rad.d))) / sabs(SReal(rad.d))
     outer = SReal(qn, qd).simp()
     if outer.is_const():
-        return root * abs(outer.const())
-    return sabs(outer) * root
+        res = root * abs(outer.const())
+    else:
+        res = sabs(outer) * root
+    # a lower bound of the whole radicand carries over to the value (recorded for the returned expression,
+    # which may be a product such as  l * sqrt(1 + ...)  after square factors were pulled out)
+    try:
+        if x.d.is_const() and x.d.const_val() > 0 and not res.is_const():
+            lo_x = poly_interval(x.n.scale(1 / x.d.const_val()))[0]
+            if lo_x is not None and lo_x > 0:
+                note_nonneg(res, _fsqrt_lo(lo_x))
+    except Exception:
+        pass
+    return res
 
 
 # ---- sin / cos ------------------------------------------------------------------------------
